@@ -480,7 +480,7 @@ func (vc *VC) evalKnown(key string, callee *types.Func, recv Value, call *ast.Ca
 				perm, inv := "perm."+nv.S, "inv."+nv.S
 				vc.decls = append(vc.decls, fmt.Sprintf("(declare-fun %s (Int) Int)", perm), fmt.Sprintf("(declare-fun %s (Int) Int)", inv))
 				vc.assume(st.pc, Term{fmt.Sprintf("(forall ((k! Int)) (! (=> (and (<= 0 k!) (< k! (len.%s %s))) (and (<= 0 (%s k!)) (< (%s k!) (len.%s %s)) (= (%s (%s k!)) k!) (= (select (arr.%s %s) k!) (select (arr.%s %s) (%s k!))))) :pattern ((select (arr.%s %s) k!)) :pattern ((%s k!))))", S, nv.S, perm, perm, S, nv.S, inv, perm, S, nv.S, S, sl.S, perm, S, nv.S, perm), SBool, nil})
-				vc.assume(st.pc, Term{fmt.Sprintf("(forall ((k! Int)) (! (=> (and (<= 0 k!) (< k! (len.%s %s))) (and (<= 0 (%s k!)) (< (%s k!) (len.%s %s)) (= (%s (%s k!)) k!))) :pattern ((%s k!))))", S, nv.S, inv, inv, S, nv.S, perm, inv, inv), SBool, nil})
+				vc.assume(st.pc, Term{fmt.Sprintf("(forall ((k! Int)) (! (=> (and (<= 0 k!) (< k! (len.%s %s))) (and (<= 0 (%s k!)) (< (%s k!) (len.%s %s)) (= (%s (%s k!)) k!) (= (select (arr.%s %s) (%s k!)) (select (arr.%s %s) k!)))) :pattern ((%s k!)) :pattern ((select (arr.%s %s) k!))))", S, nv.S, inv, inv, S, nv.S, perm, inv, S, nv.S, inv, S, sl.S, inv, S, sl.S), SBool, nil})
 				vc.storeSliceArg(call.Args[0], nv, st)
 				gi := vc.freshOfSort("si", SInt, types.Typ[types.Int])
 				gj := vc.freshOfSort("sj", SInt, types.Typ[types.Int])
